@@ -4,6 +4,10 @@ import (
 	"fmt"
 	"math/rand"
 
+	sdk "github.com/cosmos/cosmos-sdk/types"
+	mttypes "mods.irisnet.org/modules/mt/types"
+	nfttypes "mods.irisnet.org/modules/nft/types"
+
 	"verif/vnet"
 )
 
@@ -211,6 +215,24 @@ func (s *TokSim) Step() {
 		h := hs[s.Rng.Intn(len(hs))]
 		dst, relay := s.route(h.chain)
 		w.SendNft(h.chain, h.owner, h.class, h.id, s.receiver(dst), dst.Name, relay)
+	case x < 0.735 && s.Cfg.NFT:
+		// hostile: try to mint straight into a voucher class that exists on some chain (must be refused)
+		c := s.pick()
+		var vcs []string
+		seen := map[string]bool{}
+		for _, h := range NftSnapshot(c) {
+			if IsVoucherClass(h.Class) && !seen[h.Class] {
+				seen[h.Class] = true
+				vcs = append(vcs, h.Class)
+			}
+		}
+		if len(vcs) == 0 {
+			return
+		}
+		u := s.user(c)
+		s.nIDs++
+		w.Do(&Action{Kind: "user-nft-mint", On: c, Signer: u, Mut: "mint-into-voucher-class", Note: vcs[0],
+			Msgs: []sdk.Msg{nfttypes.NewMsgMintNFT(fmt.Sprintf("tok%d", s.nIDs%5), vcs[s.Rng.Intn(len(vcs))], "", "", "", "", u.Addr.String(), u.Addr.String())}})
 	case x < 0.76 && s.Cfg.NFT:
 		hs := s.userNfts()
 		if len(hs) == 0 {
@@ -265,6 +287,12 @@ func (s *TokSim) Step() {
 			}
 			w.SendMt(h.chain, h.owner, h.class, h.id, amt, s.receiver(dst), dst.Name, relay)
 		case y < 0.75+s.Cfg.BurnProb:
+			if IsVoucherClass(h.class) && s.Rng.Intn(2) == 0 {
+				// hostile: try to mint more of a voucher (must be refused: only the transfer module may)
+				w.Do(&Action{Kind: "user-mt-mint", On: h.chain, Signer: h.owner, Mut: "mint-into-voucher-class",
+					Msgs: []sdk.Msg{mttypes.NewMsgMintMT(h.id, h.class, 1+uint64(s.Rng.Intn(100)), "", h.owner.Addr.String(), h.owner.Addr.String())}})
+				return
+			}
 			w.BurnMt(h.chain, h.owner, h.class, h.id, s.amount(h.amount))
 		default:
 			w.TransferMtLocal(h.chain, h.owner, h.class, h.id, s.amount(h.amount), s.user(h.chain).Addr)
